@@ -378,6 +378,10 @@ def main():
             continue
         if 'native_error' in sr:
             fault.append('native search failed for %s: %s' % (t, sr['native_error'][-400:]))
+        elif not sr.get('accepted') and not t.startswith('lemma:'):
+            # vacuity guard: the precondition of the contract was never satisfied by a generated input
+            fault.append('no generated input satisfied the precondition of %s (generator errors: %s)'
+                         % (t, sr.get('gen_errors')))
         search_hit = sr.get('mismatch')
         if search_hit is not None and 'oracle_error' in search_hit:
             fault.append('oracle error for %s: %s' % (t, search_hit['oracle_error']))
